@@ -138,7 +138,7 @@ SimpleQuadric SurfaceTranslator::operator()(SimpleQuadric const& other) const
     {
         first[i] -= 2 * second[i] * origin[i];
         zeroth += second[i] * ipow<2>(origin[i])
-                  - 2 * other.first()[i] * origin[i];
+                  - other.first()[i] * origin[i];
     }
     return SimpleQuadric{second, first, zeroth};
 }
